@@ -22,10 +22,13 @@ RULE = ("case = (tlslite role, version 1.0-1.3, suite in (tlslite "
         "negotiable ∩ OpenSSL list for the credential), server key in {RSA, "
         "RSA-PSS, ECDSA P-256/384/521, Ed25519, Ed448, DSA}, group in "
         "{P-256, P-384, P-521, X25519, X448}, client auth, ALPN, resumption "
-        "in {none, TLS<=1.2 session/ticket, TLS 1.3 PSK}, payload sizes); "
+        "in {none, TLS<=1.2 session/ticket, TLS 1.3 PSK}, HelloRetryRequest "
+        "forced by disjoint first key share, OpenSSL client with its "
+        "default (padded, two-version) ClientHello, payload sizes); "
         "'mutually supported' is decided empirically: the same "
-        "configuration must succeed OpenSSL<->OpenSSL and tlslite<->"
-        "tlslite; then the cross handshakes must complete, agree on "
+        "configuration must succeed OpenSSL<->OpenSSL (the tlslite<->"
+        "tlslite run of a matrix entry without drawn options must always "
+        "succeed); then the cross handshakes must complete, agree on "
         "version / cipher / ALPN / reuse and move multi-record payloads "
         "both ways. The full (role, version, suite, key) matrix is "
         "enumerated; options are drawn. non-trivial = completed cross "
@@ -99,13 +102,28 @@ def tls_settings(case, s):
     if case.get("curve"):
         kw["eccCurves"] = [case["curve"]]
         kw["keyShares"] = [case["curve"]] if v == (3, 4) else []
+    if case.get("hrr") and v == (3, 4):
+        # the first key share does not fit the server: HelloRetryRequest
+        if case["role"] == "s":
+            kw["eccCurves"] = ["secp384r1"]
+            kw["keyShares"] = []
+        else:
+            kw["eccCurves"] = ["x25519", "secp384r1"]
+            kw["keyShares"] = ["x25519"]
     return kw
 
 
 def ossl_ctx(role, case, s, fwd, for_ossl_pair=False):
     v = tuple(case["ver"])
     cipher = None if s.tls13 else fwd[s.id]
+    if s.tls13 and case.get("ossl_default"):
+        # OpenSSL's own default list: a ClientHello of 256..511 bytes, which
+        # OpenSSL pads to 512 with the padding extension
+        cipher = "DEFAULT"
     kw = dict(cipher=cipher)
+    minv = v
+    if s.tls13 and case.get("ossl_default") and role == "c":
+        minv = (3, 3)       # ... and offers TLS 1.2 as well (517-byte hello)
     if role == "s":
         kw["cert"] = sc.cert_pem(case["key"])
         kw["key"] = sc.key_pem(case["key"])
@@ -118,9 +136,12 @@ def ossl_ctx(role, case, s, fwd, for_ossl_pair=False):
             kw["key"] = sc.key_pem("rsa1024")
     if case.get("curve"):
         kw["curve"] = OSSL_CURVE[case["curve"]]
+    if case.get("hrr") and v == (3, 4) and role == "s" and \
+            (case["role"] == "c" or for_ossl_pair):
+        kw["curve"] = "secp384r1"
     if case.get("alpn"):
         kw["alpn"] = list(case["alpn_c"] if role == "c" else case["alpn_s"])
-    return op.make_ctx(role, v, v, **kw)
+    return op.make_ctx(role, minv, v, **kw)
 
 
 def tls_opts(role, case, s):
@@ -169,11 +190,20 @@ def check(case):
     pc.pop("_cache", None)
     p = sc.connect(tls_opts("c", pc, s), tls_opts("s", pc, s))
     if not p.both_ok:
+        if not case.get("curve") and not case.get("alpn"):
+            # every (suite, version, key) of the matrix is one tlslite
+            # itself negotiates (that is how the matrix is built): on a
+            # correct tree this loopback never fails
+            from vlib.runner import BaselineBroken
+            raise BaselineBroken("tlslite-loopback:%s:%04x:%s%s" % (
+                sc.VERNAME[v], sid, case["key"],
+                ":client-auth" if case.get("client_auth") else ""),
+                "%r %r" % (p.co, p.so))
         return good(nt=False, labels=labels + ["tlslite-does-not-support"])
     # 2. OpenSSL <-> OpenSSL
     try:
         oc, os_, _ = op.ossl_pair(ossl_ctx("c", case, s, fwd),
-                                  ossl_ctx("s", case, s, fwd))
+                                  ossl_ctx("s", case, s, fwd, True))
     except (ssl.SSLError, ValueError) as e:
         return good(nt=False, labels=labels + ["openssl-config-refused"])
     if not (oc.done and os_.done):
@@ -228,6 +258,13 @@ def cross(case, s, fwd, rev, role, labels, resume=False):
                            "done" if fin else "blocked"),
                        "done" if oend.done else repr(oend.error)),
                    labels=labels)
+    if bytes.fromhex("cf21ad74e59a6111be1d8c021e65b891") in \
+            link.wire("s")[:200]:
+        labels.append("hello-retry-request")
+    elif case.get("hrr") and v == (3, 4):
+        labels.append("hrr-wanted-but-not-seen")
+    if case.get("client_auth"):
+        labels.append("client-auth")
     # negotiated parameters
     over = op.VNAME.get(oend.obj.version())
     if over != tuple(conn.version):
@@ -335,6 +372,10 @@ def cases(draw, tier):
                    draw(st.sampled_from([1, 100, 16384, 16385, 50000]))]}
     if s.tls13 or s.kx == "ecdhe":
         c["curve"] = draw(st.sampled_from([None] + sorted(OSSL_CURVE)))
+    if s.tls13 and not c.get("curve"):
+        c["hrr"] = draw(st.booleans())
+    if s.tls13:
+        c["ossl_default"] = draw(st.booleans())
     c["client_auth"] = draw(st.booleans())
     if draw(st.booleans()):
         names = ["h2", "http/1.1", "x"]
@@ -364,3 +405,26 @@ def explicit(tier, seed):
             yield {"role": role, "suite": sid, "ver": list(v), "key": key,
                    "sizes": [100, 20000], "client_auth": False,
                    "resume": (k % 4 == 0)}
+    # client authentication and HelloRetryRequest, per version and role
+    seen = set()
+    for sid, v, key in m:
+        s = iana.SUITES[sid]
+        tag = (v, s.kind, s.kx if not s.tls13 else "13", key)
+        if tag in seen:
+            continue
+        seen.add(tag)
+        for role in "cs":
+            yield {"role": role, "suite": sid, "ver": list(v), "key": key,
+                   "sizes": [100, 3000], "client_auth": True,
+                   "resume": False}
+            if s.tls13:
+                for ca in (False, True):
+                    for od in (False, True):
+                        yield {"role": role, "suite": sid, "ver": list(v),
+                               "key": key, "sizes": [100, 3000],
+                               "client_auth": ca, "resume": False,
+                               "hrr": True, "ossl_default": od}
+                yield {"role": role, "suite": sid, "ver": list(v),
+                       "key": key, "sizes": [100, 3000],
+                       "client_auth": False, "resume": True,
+                       "ossl_default": True}
